@@ -472,6 +472,8 @@ DTYPES = {'int': int, 'str': str, 'float': float, 'bool': bool, 'list': list, 'd
 def make_task_class(ts, module_name, g):
     bases = {'Task': Task, 'ModuleTask': ModuleTask, 'DoubleModuleTask': DoubleModuleTask}
     base = bases.get(ts.get('base', 'Task')) or g[ts['base']]
+    if ts.get('class_base') and ts['class_base'] in g:
+        base = g[ts['class_base']]
     meta = {}
     if ts.get('meta_name'):
         meta['name'] = ts['meta_name']
